@@ -5,6 +5,7 @@ import contextlib
 import datetime
 import io
 import os
+import shutil
 
 import numpy as np
 from hypothesis import strategies as st
@@ -19,7 +20,7 @@ RULE = (
     "A C14 tree (placeholder files) plus one real channel 'real' (RF recording with gaps and its 'metadata' Digital "
     "Metadata channel, written by the real writers) is built; Hypothesis draws a command in {cp, mv, ln, ln "
     "--symbolic} with -c channel lists (none / one / comma list / repeated), --only, -R, -s/-e as ISO strings, "
-    "float stamps or '+offset', and the include flags, run through digital_rf.drf_command.main. Oracle: the relative "
+    "float stamps or '+offset', the include flags, and the destination on the same or on another file system, run through digital_rf.drf_command.main. Oracle: the relative "
     "paths of lsdrf(src, same options) on the pristine tree; the destination must hold exactly that set (plus parent "
     "directories only), byte-identical / same inode / symlink to the source; cp and ln leave the source snapshot "
     "unchanged, mv removes exactly the transferred files; when the real channel's properties and data files were "
@@ -89,6 +90,8 @@ def _cases(draw, tier):
     if case["start"] is not None and case["end"] is not None and case["end"] < case["start"]:
         case["start"], case["end"] = case["end"], case["start"]
     case["tfmt"] = draw(st.sampled_from(["iso", "float", "plus"]))
+    # destination on another file system (rename cannot be used; hard links are impossible there)
+    case["xdev"] = case["cmd"] != "ln" and draw(st.integers(0, 3)) == 0
     case["drf"] = draw(st.sampled_from([True, True, True, False]))
     case["dmd"] = draw(st.sampled_from([True, True, True, False]))
     case["drfprops"] = draw(st.sampled_from([None, None, True, False]))
@@ -150,7 +153,7 @@ def files_of(snap):
     return {k: v for k, v in snap.items() if v[0] != "d"}
 
 
-def run_case(case):
+def _run_case(case):
     res = Result()
     drf = rfharness.drf()
     from digital_rf import drf_command
@@ -168,7 +171,15 @@ def run_case(case):
         with rfharness.quiet_fds():
             build_real(top)
         src = os.path.join(base, case["src"])
-        dest = os.path.join(base, "out", os.path.basename(src) if case["src"] != "top" else "top")
+        out_root = os.path.join(base, "out")
+        xroot = None
+        if case.get("xdev"):
+            from vlib.campaign import VERIF
+            xroot = os.path.join(VERIF, ".build", "scratch-c18-%d" % os.getpid())
+            shutil.rmtree(xroot, ignore_errors=True)
+            out_root = os.path.join(xroot, "out")
+            res.cls("cross-device")
+        dest = os.path.join(out_root, os.path.basename(src) if case["src"] != "top" else "top")
         os.makedirs(os.path.dirname(dest), exist_ok=True)
         kwargs = dict(recursive=not case["only"], reverse=case["reverse"], starttime=L.to_dt(case["start"]), endtime=L.to_dt(case["end"]),
                       include_drf=case["drf"], include_dmd=case["dmd"], include_drf_properties=case["drfprops"],
@@ -213,7 +224,6 @@ def run_case(case):
             res.fail("command-exception:%s" % type(e).__name__, "argv %r: %s" % (argv[:1] + argv[3:], e))
             return res
         res.evaluations += len(expected)
-        out_root = os.path.join(base, "out")
         after_dest = treeutil.snapshot(out_root, content=False) if os.path.isdir(out_root) else {}
         got_files = {os.path.join(out_root, k) for k, v in after_dest.items() if v[0] != "d"}
         got_dirs = {os.path.join(out_root, k) for k, v in after_dest.items() if v[0] == "d"}
@@ -277,12 +287,22 @@ def run_case(case):
                 rd.close()
             except Exception as e:
                 res.fail("dest-reader-exception:" + case["cmd"], "%s: %s" % (type(e).__name__, e))
+        if xroot:
+            shutil.rmtree(xroot, ignore_errors=True)
     return res
+
+
+def run_case(case):
+    from vlib.campaign import VERIF
+    try:
+        return _run_case(case)
+    finally:
+        shutil.rmtree(os.path.join(VERIF, ".build", "scratch-c18-%d" % os.getpid()), ignore_errors=True)
 
 
 def shrink_candidates(case):
     for key, val in (("chs", None), ("only", False), ("reverse", False), ("start", None), ("end", None), ("drfprops", None),
-                     ("dmdprops", None), ("tfmt", "iso"), ("drf", True), ("dmd", True)):
+                     ("dmdprops", None), ("tfmt", "iso"), ("drf", True), ("dmd", True), ("xdev", False)):
         if case[key] != val:
             yield dict(case, **{key: val})
     tree = case["tree"]
